@@ -54,7 +54,8 @@ def build_exe(stage):
 
 
 def build(stage):
-    return ProcHarness([build_exe(stage)])
+    # no symbolised stack for UBSan stops (the summary line names file:line): a stop then costs milliseconds, not a second
+    return ProcHarness([build_exe(stage)], env={"UBSAN_OPTIONS": "print_stacktrace=0:halt_on_error=1:exitcode=86"})
 
 
 # ---------------------------------------------------------------------------------------------- case lines
